@@ -13,7 +13,21 @@ CLAIMED = {
         "text": "Decides the agreement-by-delegation clauses exactly: every *_str query of all four Dictionary impls reaches only the same-named char-slice query of its own receiver; every exact query of FstDictionary delegates to the same-named query of full_dict (built from the same word vector as the FST); every MergedDictionary query folds the same-named child query. This is what makes the three back-ends answer exact queries identically for every string; it is not a statement about fuzzy search.",
         "note": "Not decided (value-level): Levenshtein soundness/completeness, ordering and caps of fuzzy results, the positional zip in FstDictionary::fuzzy_match, u8 overflow for very long words.",
     },
+    "C11": {
+        "level": "proof",
+        "ref": "DESIGN.md section 3, C11",
+        "technique": "structural lemma chain over MIR: dominance of every rule invocation by its is_rule_enabled gate with same-entry provenance, deep-Freeze type graph of Document, effect census of the result vectors, cache-key provenance, must-pass-through restore of configuration overlays, serde attribute audit",
+        "text": "All lemmas of the structural argument are decided exactly: every Linter::lint / run_on_chunk call in LintGroup::lint is dominated by the true edge of config.is_rule_enabled(key) with key and linter from the same map entry; rules get &Document whose type graph has no interior mutability; the group only extends/appends/clones its result vectors and re-bases spans; the chunk-cache key contains the configuration hash and Hash for LintGroupConfig feeds key and value of every entry; the three overlay sites restore the saved configuration on every path; merge_from / fill_with_curated / set_rule_enabled_if_unset have the stated guards and argument order; LintGroupConfig is a transparent serde map. Together these give lints(config) = union over enabled rules for all 3^290 configurations without executing any.",
+        "note": "Rule-internal hidden state (a rule influencing a later run of another rule through statics or interior mutability) is the subject of C05's rules and is inherited from there; no configuration value is executed.",
+    },
+    "C14": {
+        "level": "proof",
+        "ref": "DESIGN.md section 3, C14",
+        "technique": "type-graph walk over Hash impls (derived impls feed every field, hand-written impls are read from MIR) with a position-carrying-field predicate; sibling agreement of ignore/lookup hashing; serde attribute audit",
+        "text": "Exact structural rules: no field that feeds the Hash of LintContext is of type Span or an integer that any workspace function assigns from a token-index source (this found Quote.twin_loc, now repaired); ignore_lint and is_ignored hash through one function with identical argument roles and insert/contains that hash; remove_ignored retains exactly !is_ignored; from_lint copies kind, suggestions, message, priority from the lint; IgnoredLints and the wasm export/import use a symmetric serde codec and import is a union.",
+        "note": "Not decided: hash collisions; the arithmetic that selects the 2-character neighbourhood.",
+    },
 }
 
 _TODO = "static rules for this property are specified in DESIGN.md section 3 but not yet implemented and self-tested; unclaimed until they are"
-NOT_APPLICABLE = {k: _TODO for k in ["C01", "C02", "C03", "C04", "C05", "C06", "C07", "C08", "C09", "C11", "C12", "C13", "C14", "C16", "C17", "C18", "C19"]}
+NOT_APPLICABLE = {k: _TODO for k in ["C01", "C02", "C03", "C04", "C05", "C06", "C07", "C08", "C09", "C12", "C13", "C16", "C17", "C18", "C19"]}
